@@ -5,6 +5,6 @@ diff="$1"; prop="$2"; tier="${3:-quick}"
 d=$(mktemp -d /tmp/mrepo.XXXXXX)
 cp -r /repo/statemachine "$d/" || exit 3
 (cd "$d" && patch -p1 -s < "$diff") || { echo "patch failed"; rm -rf "$d"; exit 3; }
-cd /verif && VERIF_REPO="$d" ./vf check "$prop" --tier "$tier"; rc=$?
+cd /verif && VERIF_EVIDENCE_DIR="$d/evidence" VERIF_REPO="$d" ./vf check "$prop" --tier "$tier"; rc=$?
 rm -rf "$d"
 exit $rc
